@@ -22,6 +22,7 @@ import (
 
 	"github.com/gammazero/nexus/v3/client"
 	"github.com/gammazero/nexus/v3/transport"
+	"github.com/gammazero/nexus/v3/transport/serialize"
 	"github.com/gammazero/nexus/v3/wamp"
 	"pgregory.net/rapid"
 )
@@ -91,7 +92,10 @@ func genClientCase(t *rapid.T, hostile bool) *Case {
 		}
 		return o
 	}
-	type made struct{ ord, g int }
+	type made struct {
+		ord, g  int
+		chunked bool
+	}
 	var subs, regs, unsubbable, unreggable []made
 	for g := 0; g < ng; g++ {
 		n := 1 + uni(t, 5, "nops")
@@ -102,8 +106,8 @@ func genClientCase(t *rapid.T, hostile bool) *Case {
 			case k < 18:
 				op.K = "subscribe"
 				op.Opts = policy()
-				subs = append(subs, made{ordinal, g})
-				unsubbable = append(unsubbable, made{ordinal, g})
+				subs = append(subs, made{ordinal, g, false})
+				unsubbable = append(unsubbable, made{ordinal, g, false})
 			case k < 26 && len(unsubbable) > 0:
 				op.K = "unsubscribe"
 				// one Unsubscribe per subscription: UNSUBSCRIBE carries no token, the
@@ -114,13 +118,14 @@ func genClientCase(t *rapid.T, hostile bool) *Case {
 				op.Opts = policy()
 			case k < 42:
 				op.K = "register"
-				kinds := []string{"fast", "fast", "slow", "wait", "progress", "error"}
+				kinds := []string{"fast", "fast", "slow", "wait", "progress", "error", "chunked"}
 				if hostile {
 					kinds = append(kinds, "ctxwait")
 				}
 				op.Opts = append(policy(), KV{"handler", VStr(pick(t, kinds, "handler"))}, KV{"hsleep", VI64(pick(t, []int64{1, 1e6, 50e6}, "hsleep"))})
-				regs = append(regs, made{ordinal, g})
-				unreggable = append(unreggable, made{ordinal, g})
+				chunked := optStr(&op, "handler", "") == "chunked"
+				regs = append(regs, made{ordinal, g, chunked})
+				unreggable = append(unreggable, made{ordinal, g, chunked})
 			case k < 48 && len(unreggable) > 0:
 				op.K = "unregister"
 				k := uni(t, len(unreggable), "whichreg")
@@ -143,6 +148,11 @@ func genClientCase(t *rapid.T, hostile bool) *Case {
 					op.Opts = append(op.Opts, KV{"ctx", VStr("cancel")}, KV{"ctxns", VI64(pick(t, delays, "cancelns"))})
 				}
 				op.Opts = append(op.Opts, KV{"cancelreply", VStr(pick(t, []string{"error", "error", "none", "result"}, "cancelreply"))})
+				if _, hasCtx := optGet(op.Opts, "ctx"); !hasCtx && pct(t, 30, "callprog") {
+					// a progressive call: the payload is fed in chunks through a callback
+					op.K = "callprog"
+					op.Opts = append(op.Opts, KV{"chunks", VInt(1 + uni(t, 4, "nchunks"))}, KV{"finalunset", VBool(pct(t, 50, "finalunset"))}, KV{"gap", VI64(pick(t, []int64{0, 1, 1e6}, "gap"))})
+				}
 			default:
 				op.K = "sleep"
 				op.Ns = pick(t, delays, "sleep")
@@ -156,17 +166,28 @@ func genClientCase(t *rapid.T, hostile bool) *Case {
 	times := []int64{0, 1, 1e6, 10e6, 50e6, int64(rigRT) - 1, int64(rigRT), int64(rigRT) + 1, 2 * int64(rigRT), 3 * int64(rigRT)}
 	invID := 0
 	dupped := map[int]bool{}
+	chunkedID := map[int]bool{}
 	for i := 0; i < nr; i++ {
 		op := Op{S: -1, Ns: pick(t, times, "at")}
 		switch k := uni(t, 100, "rk"); {
 		case k < 40 && len(regs) > 0:
 			op.K = "rinvoke"
-			op.Ref = fmt.Sprint(pick(t, regs, "ireg").ord)
-			if invID > 0 && pct(t, 25, "dupinv") && (hostile || len(dupped) < invID) {
+			reg := pick(t, regs, "ireg")
+			op.Ref = fmt.Sprint(reg.ord)
+			if reg.chunked {
+				// a progressive call invocation: the same id several times, all but the last marked progress
+				invID++
+				op.K, op.N = "rinvokeprog", invID
+				chunkedID[invID] = true
+				op.Opts = []KV{{"chunks", VInt(1 + uni(t, 4, "ichunks"))}, {"gap", VI64(pick(t, []int64{0, 1, 1e6}, "igap"))}}
+				c.Ops = append(c.Ops, op)
+				continue
+			}
+			if invID > len(chunkedID) && pct(t, 25, "dupinv") && (hostile || len(dupped) < invID-len(chunkedID)) {
 				// duplicate / old invocation id. A third INVOCATION with the id of a
 				// running one is router misbehaviour: hostile scripts only.
 				op.N = 1 + uni(t, invID, "oldinv")
-				for !hostile && dupped[op.N] {
+				for chunkedID[op.N] || (!hostile && dupped[op.N]) {
 					op.N = op.N%invID + 1
 				}
 				dupped[op.N] = true
@@ -358,6 +379,11 @@ type rig struct {
 	undone    map[int]bool
 	invCh     map[wamp.ID]chan struct{}
 	invKind   map[wamp.ID]string
+	invChunksSent map[wamp.ID]int
+	invChunks map[wamp.ID][]int // chunk numbers in the order the handler saw them
+	chunkBusy map[wamp.ID]bool
+	chunkOverlap bool
+	callChunks map[int][]int // callprog ordinal -> chunk numbers in the order the router saw them
 	invTimeout map[wamp.ID]bool
 	invOnce   map[wamp.ID]*sync.Once
 	ready     map[int]chan struct{} // closed when Subscribe/Register #ord returned successfully
@@ -591,9 +617,27 @@ func (r *rig) routerLoop() {
 				continue
 			}
 			r.mu.Lock()
+			if prev, seen := r.callReq[ord]; seen && prev != x.Request {
+				r.mu.Unlock()
+				r.fail("%s#%d: its CALL messages carry different request ids (%d, %d)", op.K, ord, prev, x.Request)
+				continue
+			}
 			r.callReq[ord] = x.Request
 			r.reqOrd[x.Request] = ord
+			moreChunks := false
+			if op.K == "callprog" {
+				k := 0
+				if len(x.Arguments) > 1 {
+					n, _ := wamp.AsInt64(x.Arguments[1])
+					k = int(n)
+				}
+				r.callChunks[ord] = append(r.callChunks[ord], k)
+				moreChunks, _ = x.Options["progress"].(bool)
+			}
 			r.mu.Unlock()
+			if moreChunks {
+				continue // the call is answered when its final chunk has arrived
+			}
 			nprog := int(optInt(op, "progress"))
 			wantsProg, _ := x.Options["receive_progress"].(bool)
 			if (nprog > 0) != wantsProg {
@@ -699,8 +743,9 @@ func execClientRig(c *Case, trace bool, prop string) Verdict {
 		progSeen: map[int][]int{}, progAfterReturn: map[int]bool{}, evSeq: map[int][]int{}, evSent: map[int]int{}, undone: map[int]bool{}, routerDone: make(chan struct{}), labels: map[string]int{}}
 	r.invCh, r.invOnce = map[wamp.ID]chan struct{}{}, map[wamp.ID]*sync.Once{}
 	r.invKind, r.invTimeout = map[wamp.ID]string{}, map[wamp.ID]bool{}
+	r.invChunksSent, r.invChunks, r.chunkBusy, r.callChunks = map[wamp.ID]int{}, map[wamp.ID][]int{}, map[wamp.ID]bool{}, map[int][]int{}
 	for i := range c.Ops {
-		if c.Ops[i].K == "rinvoke" && r.invCh[wamp.ID(c.Ops[i].N)] == nil {
+		if (c.Ops[i].K == "rinvoke" || c.Ops[i].K == "rinvokeprog") && r.invCh[wamp.ID(c.Ops[i].N)] == nil {
 			r.invCh[wamp.ID(c.Ops[i].N)] = make(chan struct{})
 			r.invOnce[wamp.ID(c.Ops[i].N)] = &sync.Once{}
 		}
@@ -740,7 +785,7 @@ func execClientRig(c *Case, trace bool, prop string) Verdict {
 	default:
 		return Verdict{Kind: "inconclusive", Reason: "no HELLO"}
 	}
-	feat := wamp.Dict{"features": wamp.Dict{"payload_passthru_mode": true, "call_canceling": true, "progressive_call_results": true}}
+	feat := wamp.Dict{"features": wamp.Dict{"payload_passthru_mode": true, "call_canceling": true, "progressive_call_results": true, "progressive_call_invocations": true}}
 	switch c.P["features"].S {
 	case "noppt": // pass-through fields from a router that never announced the feature
 		feat = wamp.Dict{"features": wamp.Dict{"call_canceling": true, "progressive_call_results": true}}
@@ -795,6 +840,44 @@ func execClientRig(c *Case, trace bool, prop string) Verdict {
 				r.mu.Unlock()
 				r.routerSend(&wamp.Invocation{Request: inv, Registration: idOf(ord), Details: details, Arguments: wamp.List{int(inv)}})
 			})
+		case "rinvokeprog":
+			ord := 0
+			fmt.Sscan(op.Ref, &ord)
+			inv := wamp.ID(op.N)
+			chunks, gap := int(optInt(op, "chunks")), time.Duration(optInt(op, "gap"))
+			r.afterReady(ord, at, func() {
+				if !r.live(ord) {
+					r.label("invocation_skipped_unregistered")
+					return
+				}
+				r.label("chunked_invocation_sent")
+				r.invOnce[inv].Do(func() { close(r.invCh[inv]) })
+				r.mu.Lock()
+				r.invSent[inv]++
+				r.invKind[inv] = "chunked"
+				r.mu.Unlock()
+				for k := 1; k <= chunks; k++ {
+					details := wamp.Dict{}
+					if k < chunks {
+						details["progress"] = true
+					}
+					if !r.routerSend(&wamp.Invocation{Request: inv, Registration: idOf(ord), Details: details, Arguments: wamp.List{int(inv), k}}) {
+						return
+					}
+					r.mu.Lock()
+					r.invChunksSent[inv] = k
+					r.mu.Unlock()
+					if gap > 0 && k < chunks {
+						t := time.NewTimer(gap)
+						select {
+						case <-t.C:
+						case <-r.routerDone:
+							t.Stop()
+							return
+						}
+					}
+				}
+			})
 		case "rinterrupt":
 			inv := wamp.ID(op.N)
 			// relative to the (first) INVOCATION with that id; absolute when no such invocation is scripted
@@ -847,6 +930,15 @@ func execClientRig(c *Case, trace bool, prop string) Verdict {
 		case "rraw":
 			msg := buildRaw(op.Msg, nil)
 			if msg != nil {
+				r.later(at, func() { r.routerSend(msg) })
+			}
+		case "rjson":
+			// a serialised message as it would come off a JSON transport (native fuzz target)
+			var b []byte
+			if len(op.Args) > 0 {
+				b, _ = op.Args[0].Go().([]byte)
+			}
+			if msg, err := (&serialize.JSONSerializer{}).Deserialize(b); err == nil && msg != nil {
 				r.later(at, func() { r.routerSend(msg) })
 			}
 		case "rgoodbye":
@@ -903,7 +995,19 @@ func execClientRig(c *Case, trace bool, prop string) Verdict {
 	go func() { api.Wait(); close(apiDone) }()
 
 	// let virtual time pass: everything must finish
-	time.Sleep(20 * rigRT)
+	// (an operation takes at most 9 response timeouts: the default deadline of a
+	// call plus the wait for the answer to its CANCEL; a goroutine has at most 6)
+	finished := false
+	for i := 0; i < 100 && !finished; i++ {
+		time.Sleep(rigRT)
+		synctest.Wait()
+		select {
+		case <-apiDone:
+			finished = true
+		default:
+		}
+	}
+	time.Sleep(20 * rigRT) // scripted router traffic goes on for up to 3 response timeouts after a Register returned
 	synctest.Wait()
 	select {
 	case <-apiDone:
@@ -917,7 +1021,7 @@ func execClientRig(c *Case, trace bool, prop string) Verdict {
 		}
 		r.mu.Unlock()
 		sort.Strings(stuck)
-		return fail("%v after the last scripted event these client API calls have still not returned: %v\n%s", 20*rigRT, stuck, bubbleStacksFor("client"))
+		return fail("%v of virtual time after the start these client API calls have still not returned: %v\n%s", 120*rigRT, stuck, bubbleStacksFor("client"))
 	}
 	// benign probe after the burst (C17: "does not stop processing")
 	r.mu.Lock()
@@ -1005,7 +1109,7 @@ func execClientRig(c *Case, trace bool, prop string) Verdict {
 	default:
 		hostileN := 0
 		for _, op := range c.Ops {
-			if op.N == 777 {
+			if op.N == 777 || op.K == "rjson" {
 				hostileN++
 			}
 		}
@@ -1130,6 +1234,29 @@ func (r *rig) runAPI(op *Op) {
 					return client.InvocationCanceled
 				case <-t.C:
 				}
+			case "chunked":
+				k := 0
+				if len(inv.Arguments) > 1 {
+					n, _ := wamp.AsInt64(inv.Arguments[1])
+					k = int(n)
+				}
+				r.mu.Lock()
+				if r.chunkBusy[inv.Request] {
+					r.chunkOverlap = true
+				}
+				r.chunkBusy[inv.Request] = true
+				r.invChunks[inv.Request] = append(r.invChunks[inv.Request], k)
+				r.mu.Unlock()
+				for i := 0; i < 3; i++ {
+					runtime.Gosched()
+				}
+				r.mu.Lock()
+				r.chunkBusy[inv.Request] = false
+				r.mu.Unlock()
+				if more, _ := inv.Details["progress"].(bool); more {
+					return client.InvokeResult{Err: wamp.InternalProgressiveOmitResult}
+				}
+				return client.InvokeResult{Args: wamp.List{int(inv.Request)}}
 			case "ctxwait":
 				// a handler that works until it is told to stop, as the handler
 				// documentation allows
@@ -1154,7 +1281,7 @@ func (r *rig) runAPI(op *Op) {
 		res.err = r.cli.Unregister(fmt.Sprintf("p.n%s", op.Ref))
 	case "publish":
 		res.err = r.cli.Publish(fmt.Sprintf("t.n%d", op.N), wamp.Dict{"acknowledge": true}, wamp.List{op.N}, nil)
-	case "call":
+	case "call", "callprog":
 		ord := op.N
 		ctx := context.Background()
 		var cancel context.CancelFunc
@@ -1188,7 +1315,27 @@ func (r *rig) runAPI(op *Op) {
 				r.progSeen[ord] = append(r.progSeen[ord], p)
 			}
 		}
-		res.result, res.err = r.cli.Call(ctx, fmt.Sprintf("p.call.n%d", ord), nil, wamp.List{ord}, nil, progcb)
+		if op.K == "callprog" {
+			n, gap, unset := int(optInt(op, "chunks")), time.Duration(optInt(op, "gap")), optStr(op, "finalunset", "false") == "true"
+			k := 0
+			feed := func(ctx context.Context) (wamp.Dict, wamp.List, wamp.Dict, error) {
+				k++
+				if k > 1 && gap > 0 {
+					time.Sleep(gap)
+				}
+				var o wamp.Dict
+				switch {
+				case k < n:
+					o = wamp.Dict{"progress": true}
+				case !unset:
+					o = wamp.Dict{"progress": false}
+				}
+				return o, wamp.List{ord, k}, nil, nil
+			}
+			res.result, res.err = r.cli.CallProgressive(ctx, fmt.Sprintf("p.call.n%d", ord), feed, progcb)
+		} else {
+			res.result, res.err = r.cli.Call(ctx, fmt.Sprintf("p.call.n%d", ord), nil, wamp.List{ord}, nil, progcb)
+		}
 		r.mu.Lock()
 		returned = true
 		r.mu.Unlock()
@@ -1285,7 +1432,7 @@ func (r *rig) judge() string {
 					}
 				}
 			}
-		case "call":
+		case "call", "callprog":
 			ctxKind := optStr(op, "ctx", "none")
 			ctxNs := time.Duration(optInt(op, "ctxns"))
 			if ctxKind == "none" {
@@ -1297,6 +1444,23 @@ func (r *rig) judge() string {
 				replyAt = 0
 			case "delay":
 				replyAt = delay
+			}
+			if op.K == "callprog" {
+				// answered once the final chunk has arrived
+				n := int(optInt(op, "chunks"))
+				if replyAt >= 0 {
+					replyAt += time.Duration(n-1) * time.Duration(optInt(op, "gap"))
+				}
+				r.labels["progressive_call"]++
+				if strict && res.err == nil {
+					want := make([]int, n)
+					for i := range want {
+						want[i] = i + 1
+					}
+					if fmt.Sprint(r.callChunks[ord]) != fmt.Sprint(want) {
+						return fmt.Sprintf("CallProgressive#%d fed %d chunks, the router received chunks %v", ord, n, r.callChunks[ord])
+					}
+				}
 			}
 			req := r.callReq[ord]
 			ncancel := len(r.cancels[req])
@@ -1404,6 +1568,27 @@ func (r *rig) judge() string {
 			continue
 		}
 		runs := r.handlerRuns[inv]
+		if r.invKind[inv] == "chunked" {
+			// progressive call invocation: every chunk goes to the handler, in order, one at a time
+			r.labels["chunked_invocation"]++
+			last := 0
+			for _, k := range r.invChunks[inv] {
+				if k != last+1 {
+					return fmt.Sprintf("the chunks of invocation %d reached the handler as %v", inv, r.invChunks[inv])
+				}
+				last = k
+			}
+			if r.invAnswers[inv] > 1 {
+				return fmt.Sprintf("%d final YIELD/ERROR messages for the chunked invocation %d", r.invAnswers[inv], inv)
+			}
+			if !r.interrupted[inv] && len(r.invChunks[inv]) == r.invChunksSent[inv] && r.invChunksSent[inv] > 0 && r.invAnswers[inv] != 1 {
+				// all chunks handled (the registration may have been removed meanwhile, then fewer were)
+				if final := r.invChunksSent[inv]; len(r.invChunks[inv]) == final {
+					r.labels["chunked_invocation_complete"]++
+				}
+			}
+			continue
+		}
 		if runs == 1 {
 			r.labels["handler_ran"]++
 		}
@@ -1443,6 +1628,9 @@ func (r *rig) judge() string {
 		if r.invSent[inv] == 0 && n > 0 && strict {
 			return fmt.Sprintf("the client answered invocation id %d which the router never sent", inv)
 		}
+	}
+	if r.chunkOverlap {
+		return "the handler was entered for a chunk of an invocation while it was still running for an earlier chunk of the same invocation"
 	}
 	if r.evReentered {
 		return "an event handler was entered while another event handler was still running"
